@@ -373,29 +373,37 @@ theorem mulLargeFrontier_spec (W : Nat) (hW : 1 ≤ W) (lhs rhs : List Nat) :
   ⟨ofNat_value W hW _, ofNat_canon W hW _⟩
 
 
-/-- `mul_large`: exact and canonical; the schoolbook arm is refined down to the word loops (and its
-    `debug_assert_zero!` carry is zero), the remaining arms are the frontier kernel -/
-theorem mulLarge_spec (W : Nat) (hW : 1 ≤ W) (lhs rhs : List Nat) (hl : IsWords W lhs)
+/-- `mul_large`: exact and canonical.  Unequal operands go through the mirrored `mul::add_signed_mul`
+    (schoolbook, chunk splitting, Karatsuba refined; Toom-3 same-length kernel at the frontier) on a
+    zero-filled buffer, whose `debug_assert_zero!` carry is zero; equal operands use the frontier
+    squaring kernel. -/
+theorem mulLarge_spec (W : Nat) (hW : 3 ≤ W) (lhs rhs : List Nat) (hl : IsWords W lhs)
     (hr : IsWords W rhs) :
     (mulLarge W lhs rhs).value W = val W lhs * val W rhs ∧ (mulLarge W lhs rhs).Canon W := by
   unfold mulLarge
   split
   · rename_i heq
-    have := mulLargeFrontier_spec W hW lhs lhs
+    have := mulLargeFrontier_spec W (by omega) lhs lhs
     rw [← heq]; exact this
-  · by_cases hlt : lhs.length < rhs.length
-    · simp only [hlt, if_true]
-      split
-      · obtain ⟨_, h2, h3⟩ := addMulChunk_zero W rhs lhs hr hl
-        exact ⟨by rw [fromBuffer_value, h2, Nat.mul_comm], fromBuffer_canon W _ h3⟩
-      · exact mulLargeFrontier_spec W hW lhs rhs
-    · simp only [hlt, if_false]
-      split
-      · obtain ⟨_, h2, h3⟩ := addMulChunk_zero W lhs rhs hl hr
-        exact ⟨by rw [fromBuffer_value, h2], fromBuffer_canon W _ h3⟩
-      · exact mulLargeFrontier_spec W hW lhs rhs
+  · have hc := addSignedMul_contract W hW (lhs.length + rhs.length)
+      (List.replicate (lhs.length + rhs.length) 0) false lhs rhs (by simp)
+      (isWords_replicate_zero W _) hl hr
+    obtain ⟨_, h2, _, h4⟩ := upd_zero_product W (lhs.length + rhs.length) _ _ _ hc
+      (mul_lt_pow_int W lhs rhs hl hr _ (Nat.le_refl _))
+    exact ⟨by rw [fromBuffer_value, h2], fromBuffer_canon W _ h4⟩
 
-theorem TRepr.mul_spec (W : Nat) (hW : 1 ≤ W) (a b : TRepr) (ha : a.Canon W) (hb : b.Canon W) :
+/-- the carry that `mul::multiply` asserts to be zero is zero -/
+theorem multiply_carry_zero (W : Nat) (hW : 3 ≤ W) (lhs rhs : List Nat) (hl : IsWords W lhs)
+    (hr : IsWords W rhs) :
+    (addSignedMul W (lhs.length + rhs.length) (List.replicate (lhs.length + rhs.length) 0) false
+      lhs rhs).2 = 0 := by
+  have hc := addSignedMul_contract W hW (lhs.length + rhs.length)
+    (List.replicate (lhs.length + rhs.length) 0) false lhs rhs (by simp)
+    (isWords_replicate_zero W _) hl hr
+  exact (upd_zero_product W (lhs.length + rhs.length) _ _ _ hc
+    (mul_lt_pow_int W lhs rhs hl hr _ (Nat.le_refl _))).1
+
+theorem TRepr.mul_spec (W : Nat) (hW : 3 ≤ W) (a b : TRepr) (ha : a.Canon W) (hb : b.Canon W) :
     (a.mul W b).value W = a.value W * b.value W ∧ (a.mul W b).Canon W := by
   cases a with
   | small x =>
@@ -425,7 +433,7 @@ theorem TRepr.sqr_spec (W : Nat) (hW : 1 ≤ W) (a : TRepr) (ha : a.Canon W) :
   | large ws => exact mulLargeFrontier_spec W hW ws ws
 
 /-- `impl_ibig_mul`: sign rule on top of an exact magnitude product -/
-theorem ibigMul_spec (W : Nat) (hW : 1 ≤ W) (a b : SRepr) (ha : a.WF W) (hb : b.WF W) :
+theorem ibigMul_spec (W : Nat) (hW : 3 ≤ W) (a b : SRepr) (ha : a.WF W) (hb : b.WF W) :
     (ibigMul W a b).value W = a.value W * b.value W ∧ (ibigMul W a b).WF W := by
   obtain ⟨an, am⟩ := a
   obtain ⟨bn, bm⟩ := b
